@@ -7,7 +7,8 @@
       sfmodel alac script       scripts; the codec core is a parameter, instantiated per script by tables from one reference run:
 
       == <name>
-      codec alac bits=<16|20|24|32> ch=<n> sr=<n> [normF=0|1 normD=0|1 variant=sse2|lrint]
+      codec alac bits=<16|20|24|32> ch=<n> sr=<n> [normF=0|1 normD=0|1 variant=sse2|lrint] [core=1]
+                                            core=1: the codec core is the Lean model Sf.AlacCore.coreCodec (no `enc` / `dec` lines; `close` prints no packets= list)
       enc <hex>                             the bytes the k-th alac_encode call returns (k-th `enc` line)
       w <ty> <i|f> <count> <hex items>      -> ret=<n> err=0
       close                                 -> file=<hex> packets=<frames>:<fnv of the staged ints, low 32-bits bits cleared>,…
@@ -19,6 +20,7 @@
 -/
 import SfModel.AlacFile
 import SfModel.AlacTyped
+import SfModel.AlacCodec
 import SfModel.DwvwFile
 import Driver.Util
 open Sf Sf.Alac
@@ -60,6 +62,10 @@ structure DS where
   data : List Byte := []
   rh   : Option (RHandle Frame) := none
   sticky : Bool := false
+  core : Bool := false
+  wc   : Option (W Sf.AlacCore.EncState Frame) := none
+
+def DS.coreCd (ds : DS) : Codec Sf.AlacCore.EncState Frame := Sf.AlacCore.coreCodec { bitDepth := ds.cfg.bits, numChannels := ds.cfg.ch }
 
 def DS.wst (ds : DS) : W (List (List Byte) × List (List Frame)) Frame :=
   match ds.w with
@@ -70,7 +76,7 @@ def runLine (ds : DS) (line : String) : DS × Option String :=
   let toks := (line.splitOn " ").filter (· ≠ "")
   match toks with
   | [] => (ds, none)
-  | "codec" :: _ :: rest => ({ cfg := ⟨kvNat rest "bits" 16, kvNat rest "ch" 1, kvNat rest "sr" 8000⟩, conv := convOf rest }, none)
+  | "codec" :: _ :: rest => ({ cfg := ⟨kvNat rest "bits" 16, kvNat rest "ch" 1, kvNat rest "sr" 8000⟩, conv := convOf rest, core := kvBool rest "core" false }, none)
   | ["enc", hex] => ({ ds with encs := parseHexBytes hex :: ds.encs }, none)
   | ["enc"] => ({ ds with encs := [] :: ds.encs }, none)
   | ["w", tyS, mode, nS, hex] =>
@@ -80,9 +86,21 @@ def runLine (ds : DS) (line : String) : DS × Option String :=
       let n := nS.toNat!
       let cd := encOracle []
       let w := Sf.AlacTyped.writeTyped ds.conv ds.cfg.ch cd ds.wst ty ((parseItems ty hex).take (if mode == "f" then n * ds.cfg.ch else n))
+      let vs := ((parseItems ty hex).take (if mode == "f" then n * ds.cfg.ch else n)).map (toCodec ds.conv ty)
+      if ds.core then
+        let cdc := ds.coreCd
+        let w := writeCall cdc (ds.wc.getD (W.init cdc)) (framesOf ds.cfg.ch vs)
+        ({ ds with wc := some w }, some s!"ret={n} err=0")
+      else
+      let w := writeCall cd ds.wst (framesOf ds.cfg.ch vs)
       ({ ds with w := some w }, some s!"ret={n} err=0")
   | ["w", _, _, _] => (ds, some "ret=0 err=0")
   | ["close"] =>
+    if ds.core then
+      let cdc := ds.coreCd
+      let bytes := closedBytes ds.cfg cdc (ds.wc.getD (W.init cdc))
+      ({ ds with wc := none }, some s!"file={hexBytes bytes} packets=")
+    else
     let cd := encOracle []
     let w := ds.wst
     let bytes := closedBytes ds.cfg cd w
@@ -97,7 +115,8 @@ def runLine (ds : DS) (line : String) : DS × Option String :=
     let pakt := parseHexBytes ((kvGet rest "pakt").getD "")
     let data := parseHexBytes ((kvGet rest "data").getD "")
     let sizes := paktDecode pakt
-    let h := RHandle.open (decOracle ds.cfg.ch ds.tab) (fileIO data) (kvNat rest "len" 0) sizes
+    let h := if ds.core then RHandle.open ds.coreCd (fileIO data) (kvNat rest "len" 0) sizes
+             else RHandle.open (decOracle ds.cfg.ch ds.tab) (fileIO data) (kvNat rest "len" 0) sizes
     ({ ds with rh := some h, data := data, sticky := false }, some s!"frames={h.frames} entries={sizes.length}")
   | ["r", tyS, mode, nS] =>
     match tyOf tyS, ds.rh with
@@ -107,7 +126,7 @@ def runLine (ds : DS) (line : String) : DS × Option String :=
       let nf := if mode == "f" then n else n / ch
       let err := if n == 0 && ds.sticky then "E" else "0"
       let ds := if n == 0 then ds else { ds with sticky := false }
-      let (h', vs?, ret) := h.read (decOracle ch ds.tab) (fileIO ds.data) nf
+      let (h', vs?, ret) := if ds.core then h.read ds.coreCd (fileIO ds.data) nf else h.read (decOracle ch ds.tab) (fileIO ds.data) nf
       let data := match vs? with
         | some vs => showItems ty (vs.flatten.map (toCaller ds.conv ty))
         | none => ""
@@ -122,7 +141,7 @@ def runLine (ds : DS) (line : String) : DS × Option String :=
       else
         let target : Int := if wh == 0 then off else if wh == 1 then (h.pos : Int) + off else (h.frames : Int) + off
         if wh > 2 || target < 0 || target > h.frames then ({ ds with sticky := true }, some "ret=-1 err=E")
-        else match h.seek (decOracle ds.cfg.ch ds.tab) (fileIO ds.data) target.toNat with
+        else match (if ds.core then h.seek ds.coreCd (fileIO ds.data) target.toNat else h.seek (decOracle ds.cfg.ch ds.tab) (fileIO ds.data) target.toNat) with
           | some h' => ({ ds with rh := some h', sticky := false }, some s!"ret={target} err=0")
           | none => ({ ds with sticky := true }, some "ret=-1 err=E")
     | none => (ds, some "bad-op")
